@@ -136,6 +136,9 @@ EXT_HAND = [
     {"spec": "spec: exists X (q(X) and (p(X) <-> X > 0)).", "right": "p(X) :- q(X), X > 0.", "ug": UG0},
     {"spec": "spec: (exists X q(X)) <-> (exists X p(X)).", "right": "p(X) :- q(X), X > 0.", "ug": UG0},
     {"spec": "spec: not forall X (p(X) <-> q(X)).", "right": "p(X) :- q(X), X != 0.", "ug": UG0},
+    # a placeholder that occurs only below a unary minus
+    {"spec": "spec: forall X (p(X) <-> q(X) and X > -n$i).", "right": "p(X) :- q(X), X > 0 - n.", "ug": UG0 + " input: n -> integer."},
+    {"left": "p(X) :- q(X).", "right": "p(X) :- q(X), X = X.", "ug": UG0 + " input: n -> integer. assumption: forall X (q(X) -> X > -n$i)."},
 ]
 
 
